@@ -128,7 +128,7 @@ def h_reps(i: int, j: int, pos: int) -> bool:
 
 
 # ------------------------------------------------------------------ coherence over histories
-STEPS = ['fp(v)', 'fp(t)', 'fp(view)', 'v two writes', 'view two writes', 'v[i]=x', 'v[slice]=seq', 'v[mask]=x', 'v[idx]=seq', 'v[idx dup]=seq', 'v[vec dup]=seq', 'v promote', 'v[i]=None', 't[i,j]=x', 't[i]=row', 't[:,j]=col', 'view[i]=x',
+STEPS = ['fp(v)', 'fp(t)', 'fp(view)', 'cell store-back', 'same-value write', 'v two writes', 'view two writes', 'v[i]=x', 'v[slice]=seq', 'v[mask]=x', 'v[idx]=seq', 'v[idx dup]=seq', 'v[vec dup]=seq', 'v promote', 'v[i]=None', 't[i,j]=x', 't[i]=row', 't[:,j]=col', 'view[i]=x',
          't.a=vec', 't region', 'read-only', 'failed write', 'rename', 'derive v[slice]', 'derive v.copy', 'derive v[mask]', 'derive t[rows]', 'derive t[cols]', 'derive view.copy']
 
 
@@ -188,6 +188,15 @@ def _coh_body2(steps, poss, view_first=False, skip_mid=False):
             if st == 'fp(v)': v.fingerprint()
             elif st == 'fp(t)': t.fingerprint()
             elif st == 'fp(view)': view.fingerprint()
+            elif st == 'cell store-back':
+                # an object vector holding a list cell: the cell is mutated in place and then stored back through a write
+                ov = live.get('objvec')
+                if ov is None:
+                    ov = live['objvec'] = Vector([[1, 2], 'k', 3.5], dtype=object)
+                    ov.fingerprint()
+                cell = ov[0]; cell.append(50 + k); ov[0] = cell
+            elif st == 'same-value write':
+                v[p] = v[p]; t[p, 0] = t[p, 0]      # writing the value that is already there: contents unchanged, fingerprint unchanged
             elif st == 'v two writes':
                 v[p] = 110 + k; v[(p + 1) % 3] = 120 + k          # two storage swaps with no fingerprint() call in between
             elif st == 'view two writes':
@@ -289,7 +298,7 @@ def obligations(tier):
                     smoke=[[0, 1, 0], [6, 8, 2]]))
     for s0 in range(len(STEPS)):
         obs.append(dict(name='coherent[H=2,first=%s]' % STEPS[s0], fn='h_coherent', config={'s0': s0, 'H': 2}, budget=90 if q else 300,
-                        bounds='first step fixed per job, every second step of the 28-step alphabet, every position; vector, table, a live column view and derived objects compared with freshly built objects after every step, asked in both orders (solver-chosen which first)',
+                        bounds='first step fixed per job, every second step of the 30-step alphabet, every position; vector, table, a live column view and derived objects compared with freshly built objects after every step, asked in both orders (solver-chosen which first)',
                         smoke=[[s0, 0, 0, 1, 1, 0, False, False], [s0, 14, 0, 0, 2, 0, True, True]]))
         if not q:
             obs.append(dict(name='coherent[H=3,first=%s]' % STEPS[s0], fn='h_coherent', config={'s0': s0, 'H': 3}, budget=1200,
